@@ -1,6 +1,11 @@
 use crate::engine::{Entry, entry};
 
+pub mod c20;
+pub mod c26;
+pub mod c27;
+pub mod c31;
 pub mod c32;
+pub mod c34;
 pub mod packet;
 pub mod server;
 pub mod source;
@@ -19,11 +24,16 @@ pub fn registry() -> Vec<Entry> {
         entry::<server::C17>(false),
         entry::<server::C18>(false),
         entry::<server::C19>(false),
+        entry::<c20::C20>(false),
         entry::<server::C21>(false),
         entry::<server::C22>(false),
         entry::<packet::C23>(true),
         entry::<packet::C24>(true),
         entry::<packet::C25>(false),
+        entry::<c26::C26>(false),
+        entry::<c27::C27>(false),
+        entry::<c31::C31>(false),
         entry::<c32::C32>(false),
+        entry::<c34::C34>(false),
     ]
 }
